@@ -7,7 +7,10 @@ usage: tools/lanes.py seeded [N]      every seeded/Cxx-mK against the check Cxx 
 import json, os, subprocess, sys, threading, queue
 
 FAMILY = {"R1": "C01 C02 C03 C16 C07 C08", "R2": "C04 C05 C06 C07 C08 C20", "R3": "C09 C10 C11 C12 C05 C14 C20 C07", "R4": "C13 C20 C19 C07",
-          "R5": "C14 C15 C18 C05 C11 C19", "R6": "C17 C06 C05 C15 C20 C10"}
+          "R5": "C14 C15 C18 C05 C11 C19", "R6": "C17 C06 C05 C15 C20 C10",
+          # P*: changes that alter observable behaviour but keep all twenty properties (wider check lists)
+          "P1": "C01 C02 C03 C16 C08 C07 C15", "P2": "C04 C05 C06 C07 C08 C14 C20 C19", "P3": "C09 C10 C11 C12 C14 C05 C20 C18",
+          "P4": "C13 C19 C14 C20 C07", "P5": "C15 C18 C05 C11 C14 C16 C19", "P6": "C17 C06 C15 C20 C05 C19 C16 C04"}
 
 
 def sh(cmd, **kw):
